@@ -31,6 +31,25 @@ class MockKmerFinder:
         return True
 
 
+class ShortReadKmerFinder:
+    """
+    Wrap a KmerFinder for adapters that are aligned semiglobally ("anywhere").
+
+    Such an alignment also allows the read to lie entirely within the adapter.
+    The k-mer search sets do not cover that case, so the heuristic is skipped
+    for sequences that are short enough for it to occur.
+    """
+
+    def __init__(self, kmer_finder: KmerFinder, min_length: int):
+        self.kmer_finder = kmer_finder
+        self.min_length = min_length
+
+    def kmers_present(self, sequence: str):
+        if len(sequence) < self.min_length:
+            return True
+        return self.kmer_finder.kmers_present(sequence)
+
+
 class InvalidCharacter(Exception):
     pass
 
@@ -619,7 +638,7 @@ class SingleAdapter(Adapter, ABC):
         back_adapter: bool,
         front_adapter: bool,
         internal: bool = True,
-    ) -> Union[KmerFinder, MockKmerFinder]:
+    ) -> Union[KmerFinder, MockKmerFinder, ShortReadKmerFinder]:
         positions_and_kmers = create_positions_and_kmers(
             sequence,
             self.min_overlap,
@@ -632,12 +651,16 @@ class SingleAdapter(Adapter, ABC):
         if self._debug:
             print(kmer_probability_analysis(positions_and_kmers))
         try:
-            return KmerFinder(
+            kmer_finder = KmerFinder(
                 positions_and_kmers, self.adapter_wildcards, self.read_wildcards
             )
         except ValueError:
             # Kmers too long.
             return MockKmerFinder()
+        if back_adapter and front_adapter:
+            max_errors = int(len(sequence) * self.max_error_rate) if self.indels else 0
+            return ShortReadKmerFinder(kmer_finder, len(sequence) + max_errors)
+        return kmer_finder
 
     def __repr__(self):
         return (
